@@ -2,6 +2,7 @@ package core
 
 import (
 	"fmt"
+	"sort"
 
 	"github.com/jsightapi/jsight-api-core/directive"
 	"github.com/jsightapi/jsight-api-core/jerr"
@@ -45,8 +46,14 @@ func (core *JApiCore) addMacro(d *directive.Directive) *jerr.JApiError {
 }
 
 func (core *JApiCore) checkMacroForRecursion() *jerr.JApiError {
-	for macroName, macro := range core.macro {
-		if je := findPaste(macroName, macro); je != nil {
+	names := make([]string, 0, len(core.macro))
+	for macroName := range core.macro {
+		names = append(names, macroName)
+	}
+	sort.Strings(names) // which macro is reported must not depend on map iteration order
+
+	for _, macroName := range names {
+		if je := findPaste(macroName, core.macro[macroName]); je != nil {
 			return je
 		}
 	}
